@@ -8,6 +8,8 @@ Search: any disagreement is, by C06_ellipsis_iff, an input on which the
 implementation departs from the declarative relation; an independent
 brute-force evaluation of EllMatch in Python confirms it before it is reported.
 """
+import contextlib
+import io
 import json
 import os
 import re
@@ -342,6 +344,32 @@ def run(ctx):
             break
     ctx.evaluations += non
     ctx.count('enabled_relation_pairs', non)
+    # ---- end to end: the flag as doctests switch it (every directive spelling, inline and block), on real DocTest runs
+    from xdoctest import doctest_example
+    ne2e = 0
+    for prefix in ('xdoctest', 'xdoc', 'doctest'):
+        for sign in ('+', '-'):
+            for inline in (False, True):
+                for out, want, wild in (('alpha beta gamma', 'alpha ... gamma', True), ('alpha beta gamma', 'alpha...gamma', True),
+                                        ('a...b', 'a...b', False), ('one two', 'one ... three', None)):
+                    d = '# %s: %sELLIPSIS' % (prefix, sign)
+                    lines = ([] if inline else ['>>> ' + d]) + [">>> print(%r)%s" % (out, ('  ' + d) if inline else ''), want]
+                    ex = doctest_example.DocTest(docsrc='\n'.join(lines), lineno=1)
+                    with contextlib.redirect_stdout(io.StringIO()):
+                        try:
+                            summ = ex.run(verbose=0, on_error='return')
+                            passed = bool(summ['passed'])
+                        except BaseException as e:      # noqa
+                            passed = 'raised %s' % type(e).__name__
+                    ne2e += 1
+                    # wild=True: matches only through the wildcard; False: identical text; None: matches neither way
+                    exp = (sign == '+') if wild is True else (wild is False)
+                    if passed != exp:
+                        ctx.violation('ellipsis-directive', {
+                            'what': 'doctest with directive %r: passed=%r, by construction %r' % (d, passed, exp), 'doctest': '\n'.join(lines),
+                            'got': out, 'want': want, 'expected_pass': exp, 'theorem_or_correspondence': 'C06 on DocTest.run with the flag set by a directive'}, True)
+    ctx.evaluations += ne2e
+    ctx.count('directive_end_to_end', ne2e)
     ctx.evaluations += nmeta
     ctx.count('disabled_metamorphic_pairs', nmeta)
     ctx.add_rule('check_output under -ELLIPSIS: all pairs of length <= %d, renaming "." to a fresh letter must not change the verdict' % ml)
@@ -363,6 +391,20 @@ def replay(path):
     if d.get('kind') == 'gvw-unit':
         from harness.props import c02
         return c02.replay_gvw(d, path, 'C06')
+    if d.get('kind') == 'ellipsis-directive':
+        from xdoctest import doctest_example
+        import contextlib, io
+        ex = doctest_example.DocTest(docsrc=d['doctest'], lineno=1)
+        with contextlib.redirect_stdout(io.StringIO()):
+            try:
+                passed = bool(ex.run(verbose=0, on_error='return')['passed'])
+            except BaseException as e:      # noqa
+                passed = 'raised %s' % type(e).__name__
+        print('doctest:\n%s\npassed=%r expected=%r' % (d['doctest'], passed, d['expected_pass']))
+        if passed != d['expected_pass']:
+            print('VIOLATION property=C06 replay=%s' % path)
+            return 1
+        return 0
     got, want = d.get('got'), d.get('want')
     if got is None or want is None:
         print('replay file names no input:', d.get('theorem_or_correspondence'))
